@@ -53,3 +53,25 @@ add("C01",
     "real-number model of floats; template family, grid sizes (<=5, thorough 9) and horizons (<=3, thorough 4) as listed in "
     "evidence; template preconditions = the property's 'supported model' conditions",
     "DESIGN.md section 7 C01")
+add("C05",
+    "For every listed declaration order of states, choices and functions the real solve function is executed symbolically and "
+    "compared entry by entry with the reference through the documented axis layout, which is computed from the declaration order "
+    "of the user's dicts only; separating utilities make any transposed or mis-ranked axis a satisfiable obligation with a concrete "
+    "parameter set as witness.",
+    "real-number model of floats; 9 templates incl. excluded restricted-state combinations and a period-dependent filter; quick 6 "
+    "orders per template, thorough all orders of states/choices x 3 function orders",
+    "DESIGN.md section 7 C05")
+add("C10",
+    "Pairs of symbolic runs of the real solve function on equivalent write-ups (permutations, consistent renaming, added "
+    "always-true constraint/filter, filter vs constraint); values of all states that remain in both spaces are decided equal for "
+    "all parameter values.",
+    "real-number model of floats; template family and rewriting families as listed in evidence; beta > 0 where a -inf value is "
+    "discounted",
+    "DESIGN.md section 7 C10")
+add("C11",
+    "Algebraic oracles between symbolic runs of the real solve function: affine utility transformation with symbolic a>0, b, "
+    "beta; beta=0 gives the one-period maxima; horizon independence for T in {1,2,3}; degenerate stochastic transition (one-hot "
+    "rows selected by symbolic integers) equals the deterministic model.",
+    "real-number model of floats; template family and sizes as listed; for the 36-choice template the scale a is fixed to 2 and "
+    "1/2; probability rows sum to one in the affine law",
+    "DESIGN.md section 7 C11")
